@@ -32,4 +32,9 @@ deriving Repr
     caller-chosen `spare` (any content, any length ≥ `additional`): the theorems quantify over it. -/
 def reserveOk (capLimit len additional : Nat) : Bool := len + additional ≤ capLimit
 
+/-- `Vec::with_capacity(n)` / `reserve` on an empty `Vec` / `vec![v; n]`: "capacity overflow" panic when `n` exceeds what a
+    `Vec<T>` can hold (`capLimit` = `isize::MAX / size_of::<T>()`, `usize::MAX` for zero-sized `T`, see `reserveOk`).
+    (Allocation *failure* below that limit aborts the process; an abort is outside the model.) -/
+def allocOk (capLimit n : Nat) : Bool := n ≤ capLimit
+
 end Toodee
